@@ -42,6 +42,7 @@ static void dep_rand(void* r, size_t n) { unsigned char* o = r; for (size_t i = 
 /* C04: the KDF inputs must stay what they were for as long as the KDF runs: password and salt are copied on entry and
  * compared again after the thread has yielded a few times (a static buffer shared by concurrent calls would change) */
 static int g_kdf_unstable;
+static int g_wrongcoin_conc, g_wrongcoin_serial;
 static void dep_kdf(const uint8_t* pw, size_t pwlen, const uint8_t* salt, size_t saltlen, uint64_t it, uint8_t* key, size_t keylen) {
     if (t_yield && pwlen <= 1024 && saltlen <= 64) {
         uint8_t pw0[1024], salt0[64];
@@ -63,6 +64,7 @@ static size_t norm(int compose, const char* s, polyseed_str o) {
     const char* src = r ? (const char*)r : s;
     size_t n = strlen(src);
     if (n > POLYSEED_STR_SIZE - 1) n = POLYSEED_STR_SIZE - 1;
+    if (t_yield) { struct timespec ts = { 0, 100000 }; nanosleep(&ts, NULL); }   /* let the other threads reach this point too */
     memcpy(o, src, n); o[n] = 0;
     if (r) free(r);
     maybe_yield();
@@ -104,6 +106,15 @@ static uint64_t run_script(int id, int yield) {
             d = NULL;
             st = polyseed_decode(str, coin, NULL, &d); fold(&st, sizeof st);   /* lang_out is optional */
             if (st == POLYSEED_OK) { polyseed_free(d); }
+            /* C05: the phrase is bound to its coin, also while other threads decode their own phrases */
+            for (int a = 0; a < 2; ++a) {
+                d = NULL;
+                polyseed_coin wrong = (polyseed_coin)((coin + 1 + 977 * a) % 2048);
+                st = a ? polyseed_decode(str, wrong, &lo, &d) : polyseed_decode_explicit(str, wrong, polyseed_get_lang(li), &d);
+                fold(&st, sizeof st);
+                if (st != POLYSEED_ERR_CHECKSUM && st != POLYSEED_ERR_MULT_LANG) __atomic_add_fetch(t_yield ? &g_wrongcoin_conc : &g_wrongcoin_serial, 1, __ATOMIC_RELAXED);
+                if (st == POLYSEED_OK) { polyseed_free(d); }
+            }
         }
         polyseed_data* l = NULL;
         st = polyseed_load(buf, &l); fold(&st, sizeof st);
@@ -150,6 +161,7 @@ int main(int argc, char** argv) {
         if (g_serial[i] != g_conc[i]) bad++;
     }
     printf("KDF-UNSTABLE %d\n", g_kdf_unstable);
+    printf("WRONG-COIN-NOT-CHECKSUM serial=%d concurrent=%d\n", g_wrongcoin_serial, g_wrongcoin_conc);
     printf("DONE threads=%d iters=%d different=%d\n", nt, g_iters, bad);
     return 0;
 }
